@@ -93,6 +93,14 @@ impl SegmentBlock {
     }
 
     pub fn read_record(&self, start_offset: u64) -> Result<Option<Record>, ReadError> {
+        // Offsets before this block (reverse iteration) are outside it, like offsets after it
+        if start_offset < self.offset {
+            return Err(ReadError::Reader(seglog::read::ReadError::OutOfBounds {
+                offset: start_offset,
+                length: 0,
+                flushed_offset: self.offset,
+            }));
+        }
         let offset = (start_offset - self.offset) as usize;
         let ([confirmation_count_byte], bytes, record_len) =
             seglog::parse::parse_record::<CONFIRMATION_HEADER_SIZE>(&self.block, offset)?;
